@@ -296,6 +296,57 @@ def check_scrub(ctx):
     check_scrub_release_extent_sum(ctx, "C05.failed-write/scrub-release")
 
 
+def check_coalesce(ctx):
+    """retirement hands the device sorted, merged, non-overlapping extents: coalesce_extents sorts by start, merges exactly
+    adjacent neighbours (`sector == previous_end`), refuses overlap (`sector < previous_end`) and empty extents, and grows a
+    merged run to `end - previous.start`"""
+    from rules.common import pin_comparisons, closure_carriers
+    inst = "C05.coalesce"
+    b = ctx.fn("io::coalesce_extents", inst)
+    if b is None:
+        return
+    def elem(i):
+        return lambda e: e.k == "field" and str(e.extra[1]) == str(i) and e.has_call("Iterator::next") and not e.has_call("checked_add")
+    def prev_end(e):
+        return e.has_call("checked_add") and e.has_call("slice::last_mut")
+    pin_comparisons(ctx, inst, b, [
+        ("Eq", lambda e: e.k == "const" and (e.extra or {}).get("val") == 0, elem(1), "an empty extent is refused"),
+        ("Lt", elem(0), prev_end, "an extent starting inside the previous one is refused (`sector < previous_end`, strict)"),
+        ("Eq", prev_end, elem(0), "an extent is merged only when it starts exactly at the previous end"),
+    ])
+    srt = ctx.sites(b, R.call("slice::sort_unstable_by_key", "slice::sort_by_key"), inst, exact=1)
+    for s_ in srt:
+        ok = False
+        for c in ctx.prog.closures_of(b):
+            if s_ in closure_carriers(b, c):
+                ds = c.defs.get(0, [])
+                v = A.tracer(c).node_value(ds[0]) if len(ds) == 1 else None
+                ok = v is not None and v.k == "field" and str(v.extra[1]) == "0"
+        ctx.check(ok, inst, "PIN", b.path, "extents are sorted by start sector before merging", b.where(s_))
+    pushes = R.call("Vec::push")(b)
+    ctx.check(len(pushes) == 2, inst, "anchor", b.path, "two push sites (first extent, non-adjacent extent)", None)
+    R.dom(ctx, inst, b, srt, pushes, "merging walks the sorted copy", a_desc="sort_unstable_by_key")
+    # callers: every journalled retirement and the replay coalesce first
+    for fn in ("DiskIO::retire_extents", "DiskIO::replay_allocation_journal"):
+        bb = ctx.fn(fn, inst)
+        if bb is None:
+            continue
+        co = ctx.sites(bb, R.call("io::coalesce_extents"), inst, exact=1)
+        un = ctx.sites(bb, R.call("DiskIO::retire_extents_unjournaled"), inst, exact=1)
+        R.dom(ctx, inst, bb, co, un, "marker writes only see coalesced extents", a_desc="coalesce_extents")
+        for u in un:
+            e = R.arg_expr(bb, bb.nodes[u], 1)
+            from rules.common import range_indexed_iteration
+            ok = any(c.nid in co for c in e.calls())
+            if not ok and e.has_call("Iterator::next"):
+                # a chunk of the coalesced vector: the iterator is slice::chunks(coalesced, N)
+                for n2 in bb.calls():
+                    if R.call_matches(n2.ev, "slice::chunks"):
+                        src = R.recv_expr(bb, n2)
+                        ok = ok or any(c.nid in co for c in src.calls()) or "coalesced" in names_of(bb, src)
+            ctx.check(ok, inst, "PROVENANCE", bb.path, "the extents written are (chunks of) the coalesced ones", bb.where(u), {"arg": e.show()[:80]})
+
+
 def check_recovery_gaps(ctx):
     """recovery rebuilds the free pool as the gaps between *accepted* records: `last_end` starts at the data area, is advanced
     only for a record that is being indexed (never for a loser, a marker or a skipped block), every gap [last_end, sector) in
@@ -369,6 +420,7 @@ def check_recovery_gaps(ctx):
 
 
 def check(ctx):
+    check_coalesce(ctx)
     check_recovery_gaps(ctx)
     check_scrub(ctx)
     check_who(ctx)
